@@ -35,7 +35,15 @@ Definition builder_fields : list string := ["msg"; "code_id"; "admin"; "label"; 
 
 (* sylvia/src/types.rs: ExecutorBuilder (both type states) and the helpers of Remote *)
 Definition types_program : program :=
-  [ {| fn_name := "ExecutorBuilder[Empty]::new"; fn_params := ["contract"]; fn_consts := [];
+  [ {| fn_name := "BoundQuerier::querier"; fn_params := ["self"]; fn_consts := [];
+     fn_body := (EBlock [STail (EField (EVar "self") "querier")]) |};
+    {| fn_name := "BoundQuerier::contract"; fn_params := ["self"]; fn_consts := [];
+     fn_body := (EBlock [STail (EField (EVar "self") "contract")]) |};
+    {| fn_name := "BoundQuerier::borrowed"; fn_params := ["contract"; "querier"]; fn_consts := [];
+     fn_body := (EBlock [STail (ERecord "BoundQuerier" [("contract", (EVar "contract")); ("querier", (EVar "querier")); ("_phantom", (ECon "marker::PhantomData" []))] None)]) |};
+    {| fn_name := "BoundQuerier::from"; fn_params := ["input"]; fn_consts := [];
+     fn_body := (EBlock [STail (ECall "BoundQuerier::borrowed" [(EField (EVar "input") "contract"); (EField (EVar "input") "querier")])]) |};
+    {| fn_name := "ExecutorBuilder[Empty]::new"; fn_params := ["contract"]; fn_consts := [];
      fn_body := (EBlock [STail (ERecord "ExecutorBuilder" [("contract", (ECall "to_string" [(EVar "contract")])); ("funds", (EArr [])); ("msg", (ECall "Binary::default" [])); ("_state", (ECon "marker::PhantomData" []))] None)]) |};
     {| fn_name := "ExecutorBuilder::with_funds"; fn_params := ["self"; "funds"]; fn_consts := [];
      fn_body := (EBlock [STail (ERecord "ExecutorBuilder" [("funds", (EVar "funds"))] (Some (EVar "self")))]) |};
@@ -51,12 +59,16 @@ Definition types_program : program :=
      fn_body := (EBlock [STail (ERecord "Remote" [("addr", (ECon "Cow::Owned" [(EVar "addr")])); ("_phantom", (ECon "marker::PhantomData" []))] None)]) |};
     {| fn_name := "Remote::borrowed"; fn_params := ["addr"]; fn_consts := [];
      fn_body := (EBlock [STail (ERecord "Remote" [("addr", (ECon "Cow::Borrowed" [(EVar "addr")])); ("_phantom", (ECon "marker::PhantomData" []))] None)]) |};
+    {| fn_name := "Remote::querier"; fn_params := ["self"; "querier"]; fn_consts := [];
+     fn_body := (EBlock [STail (ERecord "BoundQuerier" [("contract", (EField (EVar "self") "addr")); ("querier", (EVar "querier")); ("_phantom", (ECon "marker::PhantomData" []))] None)]) |};
     {| fn_name := "Remote::executor"; fn_params := ["self"]; fn_consts := [];
      fn_body := (EBlock [STail (ECall "ExecutorBuilder[Empty]::new" [(EField (EVar "self") "addr")])]) |};
     {| fn_name := "Remote::update_admin"; fn_params := ["self"; "new_admin"]; fn_consts := [];
      fn_body := (EBlock [STail (ERecord "WasmMsg::UpdateAdmin" [("contract_addr", (ECall "to_string" [(EField (EVar "self") "addr")])); ("admin", (ECall "to_string" [(EVar "new_admin")]))] None)]) |};
     {| fn_name := "Remote::clear_admin"; fn_params := ["self"]; fn_consts := [];
-     fn_body := (EBlock [STail (ERecord "WasmMsg::ClearAdmin" [("contract_addr", (ECall "to_string" [(EField (EVar "self") "addr")]))] None)]) |} ].
+     fn_body := (EBlock [STail (ERecord "WasmMsg::ClearAdmin" [("contract_addr", (ECall "to_string" [(EField (EVar "self") "addr")]))] None)]) |};
+    {| fn_name := "Remote::as_ref"; fn_params := ["self"]; fn_consts := [];
+     fn_body := (EBlock [STail (EField (EVar "self") "addr")]) |} ].
 
 (* sylvia/src/ctx.rs: the conversions of the entry-point argument tuples into the handler contexts *)
 Definition ctx_program : program :=
